@@ -9,6 +9,7 @@
    Executable definitions only; proofs live in Proofs/C12P.v. *)
 From Coq Require Import List ZArith NArith Bool Arith.
 From EasyML Require Import Base.Sx Model.Shape.
+From EasyML Require Model.Views.   (* the tensor view adaptors of property C02, used qualified *)
 Import ListNotations.
 Open Scope N_scope.
 
@@ -43,7 +44,18 @@ Inductive mview : Type :=
 | VRange (rows cols : index_range) (src : mview)  (* the stored ranges are the CLIPPED ones *)
 | VReverse (rows cols : bool) (src : mview)
 | VMap (src : mview)                              (* MatrixMap: only the element is projected *)
-| VViaTensor (n0 n1 : name) (src : mview).        (* MatrixRefTensor(TensorRefMatrix(src, names)) *)
+| VViaTensor (n0 n1 : name) (src : mview)         (* MatrixRefTensor(TensorRefMatrix(src, names)) *)
+| VOverTensor (c : Views.cview).                  (* MatrixRefTensor::from(any 2-dimensional tensor view);
+                                                     the root is then the tensor view's leaf store *)
+
+(* the flat root of a tensor-rooted stack: the stores of the tensor view's leaves one after the
+   other, in the order of Views.c_leaves; the base offset of the leaf with a given id *)
+Fixpoint leaf_base (leaves : list (N * N)) (id : N) : option N :=
+  match leaves with
+  | [] => None
+  | (i, n) :: rest => if i =? id then Some 0
+                      else match leaf_base rest id with Some b => Some (n + b) | None => None end
+  end.
 
 Fixpoint view_rows (v : mview) : N :=
   match v with
@@ -53,6 +65,7 @@ Fixpoint view_rows (v : mview) : N :=
   | VReverse _ _ src => view_rows src
   | VMap src => view_rows src
   | VViaTensor _ _ src => view_rows src      (* view_shape()[0].1 of the tensor = source.view_rows() *)
+  | VOverTensor c => Views.len_at (Views.c_shape c) 0      (* self.source.view_shape()[0].1 *)
   end.
 
 Fixpoint view_cols (v : mview) : N :=
@@ -63,6 +76,7 @@ Fixpoint view_cols (v : mview) : N :=
   | VReverse _ _ src => view_cols src
   | VMap src => view_cols src
   | VViaTensor _ _ src => view_cols src
+  | VOverTensor c => Views.len_at (Views.c_shape c) 1      (* self.source.view_shape()[1].1 *)
   end.
 
 (* one dimension of reverse_indexes *)
@@ -99,6 +113,15 @@ Fixpoint try_get (v : mview) (row column : N) : access :=
       else try_get src (reverse_index rr (view_rows src) row) (reverse_index rc (view_cols src) column)
   | VMap src => try_get src row column
   | VViaTensor _ _ src => try_get src row column
+  | VOverTensor c =>                                  (* self.source.get_reference([row, column]) *)
+      match Views.c_get c [row; column] with
+      | Some (leaf, offset) =>
+          match leaf_base (Views.c_leaves c) leaf with
+          | Some base => Cell (base + offset)
+          | None => AccessPanic
+          end
+      | None => Absent
+      end
   end.
 
 (* ---- construction ---- *)
@@ -111,6 +134,15 @@ Definition range_from (src : mview) (rows cols : index_range) : mview :=
 Definition via_tensor (src : mview) (n0 n1 : name) : outcome mview :=
   let sh := [(n0, view_rows src); (n1, view_cols src)] in
   if valid_shape_b sh then Ok (VViaTensor n0 n1 src) else Err (sshape sh).
+
+(* MatrixRefTensor::from(tensor view): any TensorRef<T, 2>; the constructor never fails *)
+Definition over_tensor (c : Views.cview) : option mview :=
+  if Nat.eqb (length (Views.c_shape c)) 2 then Some (VOverTensor c) else None.
+
+(* the initial contents of the flat root of a tensor-rooted stack *)
+Definition tensor_root (c : Views.cview) : list Z :=
+  flat_map (fun e => map (fun k => Views.leaf_value (fst e, N.of_nat k)) (seq 0 (N.to_nat (snd e))))
+           (Views.c_leaves c).
 
 (* the names of RowAndColumn ("row", "column") in the harness' numbering *)
 Definition name_row : name := 1000%nat.
